@@ -26,7 +26,12 @@ from .report import Check, load_known
 
 VERIF = Path(__file__).resolve().parent.parent
 # seeded changes whose defect is outside what the rules decide (DESIGN.md 8.5)
-UNDECIDED: Dict[str, str] = {}
+UNDECIDED: Dict[str, str] = {
+    "r7-C13-3": "a new per-interval skip test for strided queries with a slip in its modular arithmetic "
+                "(first += step - rem): the union over the children is no longer unconditional, and whether "
+                "the skip condition is right is arithmetic with %, which the linear rules do not decide — the "
+                "check reports 'cannot decide' (exit 2), not a violation",
+}
 # seeded changes whose author demonstrated them through the property they were asked about, but
 # which leave that property's subject untouched and break another one: the check of the property
 # that is really broken must report them
@@ -35,6 +40,8 @@ REASSIGNED = {
                         "content (ListFields), so a saved all-default label is lost on load (C02/C01)"),
     "r6-C18-3": ("C02", "deep_eq itself is unchanged: the writer drops Symbol.at_end for symbols without a "
                         "referent (C02/C01)"),
+    "r7-C18-2": ("C02", "deep_eq itself is unchanged: the writer drops an entry point that belongs to another "
+                        "module of the IR (C02/C01)"),
 }
 
 
